@@ -249,6 +249,62 @@ pub fn run(ctx: &Ctx) -> Report {
         }
     }
     cases.push(Case::new("A2_long_literals", long_prog));
+    // integer literals of 15-19 digits (at and beyond what a double holds exactly): for every length,
+    // 64 evenly spread leading parts x 4 consecutive values; the model double is the host parser's,
+    // validated as nearest by M-num's integer arithmetic
+    let mut int_prog = tables();
+    let mut n_int = 0;
+    for n in 15u32..=19 {
+        for i in 0..64u128 {
+            let base = 10u128.pow(n - 1) + 10u128.pow(n - 1) * 9 * i / 64;
+            for j in 0..4u128 {
+                let v = base + j * 7 + i;
+                let t = format!("{}", v);
+                if t.len() != n as usize {
+                    continue;
+                }
+                let parsed: f64 = t.parse().unwrap();
+                if !nearest_ok(v, 0, parsed) {
+                    crate::pool::machinery_failure(&format!("M-num: host parser result for {} is not the nearest double", t));
+                }
+                int_prog.push(print_stmt(bin(BinOp::Eq, Expr::RawNum(t, parsed), exact(parsed))));
+                n_int += 1;
+            }
+        }
+    }
+    cases.push(Case::new("A2_integer_literals_15_to_19_digits", int_prog));
+    // what `print` produces, used as a literal, denotes the number that was printed (the A1 values whose
+    // printed text the model fixes, by absolute value)
+    let mut n_text_lits = 0;
+    {
+        let mut seen = std::collections::HashSet::new();
+        let mut progs: Vec<Vec<Stmt>> = Vec::new();
+        let mut cur = tables();
+        let mut in_cur = 0;
+        for x in &values {
+            let a = x.abs();
+            if !a.is_finite() || a == 0.0 || crate::mval::fmt_number_ambiguous(a) || !seen.insert(a.to_bits()) {
+                continue;
+            }
+            let text = crate::mval::fmt_number(a);
+            if text.contains('e') || text.len() > 400 {
+                continue;
+            }
+            cur.push(print_stmt(bin(BinOp::Eq, Expr::RawNum(text, a), exact(a))));
+            n_text_lits += 1;
+            in_cur += 1;
+            if in_cur == 400 {
+                progs.push(std::mem::replace(&mut cur, tables()));
+                in_cur = 0;
+            }
+        }
+        if in_cur > 0 {
+            progs.push(cur);
+        }
+        for p in progs {
+            cases.push(Case::new("A1_printed_text_as_literal", p));
+        }
+    }
 
     // ---- A3 positive contexts (behaviour known by construction) ---------------------------------
     let mut digit_strings = Vec::new();
@@ -317,17 +373,17 @@ pub fn run(ctx: &Ctx) -> Report {
     mcheck::fill_report(
         &mut report,
         &stats,
-        "A1: every double +-(1 + j/2^m) * 2^e for every exponent e (normal and subnormal) and j < 2^m, plus boundaries (zeros, subnormal limits, max, 2^53 and 2^63 neighbours, 10^k and neighbours for k in [-323,308], NaN, infinities), built exactly from integer literals and powers of two: printed text must equal the model's shortest-round-trip positional text, text must parse back to the identical number (sign of zero included), interpolation must print the same text. A2: every literal digits[.digits] up to 5/6 characters must equal the exactly constructed nearest double (nearestness of the model's value is itself checked in exact integer arithmetic), plus long literals around halfway points. A3: every digit string up to 3 digits in each look-ahead context.",
+        "A1: every double +-(1 + j/2^m) * 2^e for every exponent e (normal and subnormal) and j < 2^m, plus boundaries (zeros, subnormal limits, max, 2^53 and 2^63 neighbours, 10^k and neighbours for k in [-323,308], NaN, infinities), built exactly from integer literals and powers of two: printed text must equal the model's shortest-round-trip positional text, text must parse back to the identical number (sign of zero included), interpolation must print the same text. A2: every literal digits[.digits] up to 5/6 characters must equal the exactly constructed nearest double (nearestness of the model's value is itself checked in exact integer arithmetic), plus long literals around halfway points, 1280 integer literals of 15-19 digits, and the printed text of every A1 value (where the model fixes it) used as a literal. A3: every digit string up to 3 digits in each look-ahead context.",
         json!({"mantissa_bits_enumerated": m_bits, "literal_length": lit_len, "digit_run_length": 3}),
     );
-    let total = n_a1 + n_a2 + n_long + n_a3 * 7 + n_neg;
+    let total = n_a1 + n_a2 + n_long + n_int + n_text_lits + n_a3 * 7 + n_neg;
     report.cov("evaluations", json!(total));
     report.cov("programs", json!(stats.evaluations));
     report.cov("distinct_nontrivial", json!(total));
     report.cov("states", json!(total));
     report.cov("transitions", json!(total));
     report.cov("traces_validated_against_impl", json!(total));
-    report.cov("values_by_family", json!({"A1_doubles": n_a1, "A2_literals": n_a2, "A2_long_literals": n_long, "A3_positive_contexts": n_a3 * 7, "A3_negative_contexts": n_neg}));
+    report.cov("values_by_family", json!({"A1_doubles": n_a1, "A2_literals": n_a2, "A2_long_literals": n_long, "A2_integer_literals_15_to_19_digits": n_int, "A1_printed_text_as_literal": n_text_lits, "A3_positive_contexts": n_a3 * 7, "A3_negative_contexts": n_neg}));
     report.assumptions = vec![
         "the model's text for a double is produced from the host's exponent formatter at increasing precision and expanded by hand; a defect shared by that formatter and the implementation's formatter would go unnoticed (the round-trip identity is checked independently of any formatter)".into(),
         "long-literal nearestness relies on the host parser (checked exactly for the short literals)".into(),
